@@ -596,7 +596,18 @@ impl Context {
             (Literal::Path(p), ty) => {
                 let ident_ty = self.codegen_ty(p.did);
 
-                self.ident_into_ty(p.did, &ident_ty, ty)
+                match ty {
+                    // a typedef'd target: convert to the aliased type, then wrap
+                    CodegenTy::Adt(AdtDef {
+                        kind: AdtKind::NewType(inner_ty),
+                        did,
+                    }) if ident_ty != *ty => {
+                        let ident = self.cur_related_item_path(*did);
+                        let (stream, is_const) = self.lit_into_ty(lit, inner_ty)?;
+                        (format! { "{ident}({stream})" }.into(), is_const)
+                    }
+                    _ => self.ident_into_ty(p.did, &ident_ty, ty),
+                }
             }
             (Literal::String(s), CodegenTy::Str) => (format!("\"{s}\"").into(), true),
             (Literal::String(s), CodegenTy::String) => {
